@@ -660,6 +660,7 @@ def tcp_lock_timeout_case(ctx, rng: random.Random) -> str | None:
     tc.start()
     # meanwhile other threads use the client's thread-safe state queries, as a reader loop or a supervisor would
     polled: list = []
+    query_threads: list = []
     stop_poll = threading.Event()
 
     def poller():
@@ -676,7 +677,9 @@ def tcp_lock_timeout_case(ctx, rng: random.Random) -> str | None:
                         polled.append(f"{getattr(q, '__name__', q)}: {type(exc).__name__}: {exc}")
                     done.set()
 
-                threading.Thread(target=call, daemon=True).start()
+                qt = threading.Thread(target=call, daemon=True)
+                query_threads.append(qt)
+                qt.start()
                 done.wait(0.05)  # a query may legitimately wait for the sender; it must not disturb it
             time.sleep(0.005)
 
@@ -689,6 +692,8 @@ def tcp_lock_timeout_case(ctx, rng: random.Random) -> str | None:
         t.join(60)
     stop_poll.set()
     tp.join(10)
+    for qt in query_threads:
+        qt.join(10)  # a query still waiting behind the senders must have finished before the harness closes the client
     stuck = [t for t in (ta, tb, tc) if t.is_alive()]
     client.close()
     rt.join(60)
